@@ -482,6 +482,9 @@ func RunE1(env *Env, job *E1Job) *E1Res {
 		if has(job.Oracles, "C04") {
 			ph.Name = "oracle C04"
 			ctx.oracleC04()
+			if ctx.poisoned {
+				res.Diverged = true
+			}
 		}
 		if has(job.Oracles, "C07") {
 			ph.Name = "oracle C07"
@@ -563,7 +566,8 @@ type stepCtx struct {
 	scan              rig.ScanResult
 	liveRows          []rig.Row
 
-	rebuilt *rig.Stack
+	rebuilt  *rig.Stack
+	poisoned bool
 }
 
 func (c *stepCtx) hist() string {
